@@ -30,7 +30,7 @@ def declare(w):
                        'threads_started': IntS})
     w.cls('SemB', fields={'count': IntS, '_semlock': ref('SemB')})
     w.cls('LockQ', fields={'held': BoolS})
-    w.cls('CondQ', fields={})
+    w.cls('CondQ', fields={'held': BoolS})
     w.cls('Q', module='queues', pyname='Queue', fields={
         '_closed': BoolS, '_sem': ref('SemB'), '_notempty': ValS, '_thread': opt(ValS), '_buffer': list_of(ValS),
         '_rlock': ref('LockQ'), '_recv_bytes': ValS, '_poll': ValS, '_maxsize': IntS})
@@ -82,7 +82,26 @@ def sem_release(ex, args, kw):
 
 
 def sem_is_zero(ex, args, kw):
+    # the unfinished-task count of a JoinableQueue is only looked at under the queue's condition lock: a test made
+    # outside it can be overtaken by the last task_done() (its notify_all finds nobody waiting; the join() that then
+    # waits is never woken)
+    me = ex.root.scopes[0].get('self')
+    if isinstance(me, SRef) and me.shape.cls == 'JQ':
+        cond = ex.path.read_field(me, '_cond')
+        ut = ex.path.read_field(me, '_unfinished_tasks')
+        prove(ex, 'guarded.unfinished_count_tested_under_the_condition_lock',
+              z3.Implies(ut.id == args[0].id, ex.path.read_field(cond, "held").e))
     return SV(BoolS, ex.path.read_field(args[0], 'count').e == 0)
+
+
+def cond_enter(ex, args, kw):
+    ex.path.write_field(args[0], 'held', mk_bool(True))
+    return SNone()
+
+
+def cond_exit(ex, args, kw):
+    ex.path.write_field(args[0], 'held', mk_bool(False))
+    return SNone()
 
 
 def lock_acquire(ex, args, kw):
@@ -148,7 +167,7 @@ def build(w):
     w.classes['CondQ'].methods.update({
         'notify_all': lambda ex, a, k: (gset(ex, 'notified', SV(IntS, gget(ex, 'notified').e + 1)), SNone())[1],
         'wait': lambda ex, a, k: (gset(ex, 'waited', SV(IntS, gget(ex, 'waited').e + 1)), SNone())[1],
-        'with_enter': lambda ex, a, k: SNone(), 'with_exit': lambda ex, a, k: SNone()})
+        'with_enter': cond_enter, 'with_exit': cond_exit})
     w.classes['Q'].methods['_start_thread'] = lambda ex, a, k: (
         ex.path.write_field(a[0], '_thread', SV(ValS, z3.Const('feeder_thread', Val))),
         gset(ex, 'threads_started', SV(IntS, gget(ex, 'threads_started').e + 1)), SNone())[2]
@@ -195,7 +214,8 @@ def build(w):
                           'reader_lock_released': 'not self._rlock.held'}},
     )
     jwf = wf + ' and allocated(self._unfinished_tasks) and self._unfinished_tasks.count >= 0 and allocated(self._cond) and ' \
-               'self._unfinished_tasks != self._sem and self._unfinished_tasks._semlock == self._unfinished_tasks'
+               'self._unfinished_tasks != self._sem and self._unfinished_tasks._semlock == self._unfinished_tasks and ' \
+               'not self._cond.held'
     jput = Contract(
         'queues.JoinableQueue.put', prop=PROP, params={'self': ref('JQ'), 'obj': ValS, 'block': BoolS, 'timeout': opt(RealS)},
         requires={'wf': jwf},
